@@ -27,6 +27,9 @@ var tTrue = boolT("true")
 var tFalse = boolT("false")
 
 func app(op string, args ...string) string {
+	if len(args) == 0 {
+		return op // a constant: SMT-LIB has no empty application
+	}
 	return "(" + op + " " + strings.Join(args, " ") + ")"
 }
 
